@@ -5,6 +5,7 @@ import SpecterModel.C35.Model
 `fwd <proto> <tls> <sni> <host> <Hostname(host)> <Hostname(sni)> <peerIP|!> <port> <inbound headers>
    => xff=<vals> xfh=<vals> xfp=<vals> tci=<vals> xri=<vals> host=<hex>`   what the tunnel backend received
    | `notforwarded:<status>`                                                nothing reached a tunnel
+   | `panic`                                                                the handler chain panicked
 
 Strings are hex tokens; `<vals>` = `_` (header absent) or comma-joined hex values; `<inbound headers>` = `_` or
 `;`-joined `name:vals` (names canonical, as parsed by net/http). The SPEC verdict restates the property
@@ -45,13 +46,18 @@ def parseSeen (rhs : String) : Option Seen :=
     pure ⟨xff, xfh, xfp, tci, xri, host⟩
   | _ => none
 
-/-- the property statement, on what the tunnel received -/
-def specCheck (tls : Bool) (hnHost hnSni : String) (peer : Option String) (port : Nat) (s : Seen) : Option String :=
+/-- the property statement, on what the tunnel received. "Requested host": for HTTP/2 and HTTP/3 the request's own
+authority (`hnHost`) and nothing else — connections are coalesced, so the SNI of the connection names whatever host
+the connection was first opened for; for HTTP/1.x over TLS the statement leaves open whether the Host header or the
+SNI names it, so either is accepted; plain HTTP/1.x has only Host. -/
+def specCheck (proto : Nat) (tls : Bool) (hnHost hnSni : String) (peer : Option String) (port : Nat) (s : Seen) : Option String :=
   let withPort (h : String) := if port = 443 then h else h ++ ":" ++ toString port
-  let okHosts := [withPort hnHost] ++ (if tls then [withPort hnSni] else [])
+  let okHosts := [withPort hnHost] ++ (if tls && proto < 2 then [withPort hnSni] else [])
   if s.xff ≠ (match peer with | some ip => [ip] | none => []) then some "X-Forwarded-For-is-not-exactly-the-peer-ip"
   else if s.xfp ≠ ["https"] then some "X-Forwarded-Proto-is-not-https"
-  else if !(match s.xfh with | [h] => okHosts.contains h | _ => false) then some "X-Forwarded-Host-is-not-the-requested-host(+port)"
+  else if !(match s.xfh with | [h] => okHosts.contains h | _ => false) then
+    some (if 2 ≤ proto then "X-Forwarded-Host-is-not-the-requested-authority(+port)-of-the-HTTP/2-or-HTTP/3-request"
+          else "X-Forwarded-Host-is-not-the-requested-host(+port)")
   else if s.tci ≠ [] then some "True-Client-IP-passed-through"
   else if s.xri ≠ [] then some "X-Real-IP-passed-through"
   else none
@@ -63,18 +69,30 @@ def step (_ : Unit) (toks : List String) (rhs : String) : Unit × Verdict :=
           (if peer = "!" then some none else (hexToAscii peer).map some), port.toNat?, parseHdrs hdrs with
     | some proto, some tls, some sni, some host, some hnHost, some hnSni, some peer, some port, some hdrs =>
       if rhs.startsWith "notforwarded:" then ((), .ok)       -- nothing reached a tunnel: outside the property
-      else match parseSeen rhs with
-      | none => ((), .bad "fwd result")
-      | some s =>
-        match specCheck tls hnHost hnSni peer port s with
-        | some why => ((), .spec why)
-        | none =>
-          let e : Env := ⟨port, fun x => if x = host then hnHost else if x = sni then hnSni else x⟩
-          let i : Req := ⟨proto, if tls then some sni else none, host, peer⟩
-          let m := rewrite e i (Hdr.ofList hdrs)
-          let mtxt := s!"xff={showVals (m XFF)} xfh={showVals (m XFH)} xfp={showVals (m XFP)} tci={showVals (m TCI)} xri={showVals (m XRI)} host={showVals [urlHost e i]}"
-          if m XFF ≠ s.xff ∨ m XFH ≠ s.xfh ∨ m XFP ≠ s.xfp ∨ m TCI ≠ s.tci ∨ m XRI ≠ s.xri ∨ urlHost e i ≠ s.host
-          then ((), .diff mtxt) else ((), .ok)
+      else
+        let e : Env := ⟨port, fun x => if x = host then hnHost else if x = sni then hnSni else x⟩
+        -- the harness sets HTTP/1.1, HTTP/2.0 or HTTP/3.0
+        let i : Req := ⟨proto, if proto = 1 then 1 else 0, if tls then some sni else none, host, peer⟩
+        match rewrite e i (Hdr.ofList hdrs), urlHost? e i with
+        | some m, some uh =>
+          let mtxt := s!"xff={showVals (m XFF)} xfh={showVals (m XFH)} xfp={showVals (m XFP)} tci={showVals (m TCI)} xri={showVals (m XRI)} host={showVals [uh]}"
+          if rhs = "panic" then ((), .diff mtxt)
+          else match parseSeen rhs with
+          | none => ((), .bad "fwd result")
+          | some s =>
+            match specCheck proto tls hnHost hnSni peer port s with
+            | some why => ((), .spec why)
+            | none =>
+              if m XFF ≠ s.xff ∨ m XFH ≠ s.xfh ∨ m XFP ≠ s.xfp ∨ m TCI ≠ s.tci ∨ m XRI ≠ s.xri ∨ uh ≠ s.host
+              then ((), .diff mtxt) else ((), .ok)
+        | _, _ =>   -- the model dereferences a nil in.TLS: the handler panics, nothing is forwarded
+          if rhs = "panic" then ((), .ok)
+          else match parseSeen rhs with
+          | none => ((), .bad "fwd result")
+          | some s =>
+            match specCheck proto tls hnHost hnSni peer port s with
+            | some why => ((), .spec why)
+            | none => ((), .diff "panic")
     | _, _, _, _, _, _, _, _, _ => ((), .bad "fwd args")
   | _ => ((), .bad "unknown op")
 
